@@ -1810,8 +1810,16 @@ impl<T: PPGEvaluatorStrategy> PPGEvaluator<T> {
             .map(|x| x.to_string())
             .collect();
 
-        let mut best = None;
-        let mut best_count = 0;
+        // what the downstream consumed when it was last recorded. If the strategy names inputs by
+        // upstream output, the old name we want is the one holding those outputs, whatever else
+        // overlaps; otherwise this counts 0 for every candidate and the overlap decides.
+        let downstream_inputs: HashSet<&str> = history
+            .get(&format!("{}!!!", downstream_id))
+            .map(|x| x.split('\n').collect())
+            .unwrap_or_default();
+
+        let mut best: Option<String> = None;
+        let mut best_count = (0, 0);
         let query = format!("!!!{}", downstream_id);
         for history_entry in history.keys() {
             if history_entry.ends_with(&query) {
@@ -1829,8 +1837,17 @@ impl<T: PPGEvaluatorStrategy> PPGEvaluator<T> {
                 let overlap = historical_upstream_outputs
                     .intersection(&missing_upstream_outputs)
                     .count();
-                if overlap > best_count {
-                    best_count = overlap;
+                let consumed = historical_upstream_outputs
+                    .iter()
+                    .filter(|x| downstream_inputs.contains(x.as_str()))
+                    .count();
+                // ties are broken by name, not by the iteration order of the history map
+                if overlap > 0
+                    && ((consumed, overlap) > best_count
+                        || ((consumed, overlap) == best_count
+                            && best.as_deref().map_or(true, |b| historical_upstream_id < b)))
+                {
+                    best_count = (consumed, overlap);
                     best = Some(historical_upstream_id.to_string())
                 }
             }
